@@ -17,6 +17,7 @@ def handle (line : String) : String :=
       | "storeops" => Drv.opStoreOps j
       | "loc" => Drv.opLoc j
       | "registry" => Drv.opRegistry j
+      | "schedule" => Drv.opSchedule j
       | "cacheopt" => Drv.opCacheOpt j
       | "history" => Drv.opHistory j
       | "argctx" => Drv.opArgCtx j
